@@ -1,6 +1,7 @@
 pub mod echo;
 pub mod mem;
 pub mod memrw;
+pub mod memts;
 
 pub type LaneFn = fn(&str) -> String;
 
@@ -9,6 +10,7 @@ pub fn find(name: &str) -> Option<LaneFn> {
         "echo" => echo::run,
         "mem" => mem::run,
         "memrw" => memrw::run,
+        "memts" => memts::run,
         _ => return None,
     })
 }
